@@ -1479,3 +1479,46 @@ def c19_uses(model, names):
                 if ed[0] == "diff" and ed[2] in names:
                     used.add(ed[2])
     return sorted(used)
+
+
+# ------------------------------------------------------------------ C13
+
+
+def check_c13(mt, sess):
+    import re
+
+    world = mt.world
+    m = world.module
+    # no two symbols share a name (the generated inputs have none)
+    seen = {}
+    for s in m.symbols:
+        seen[s.name] = seen.get(s.name, 0) + 1
+    dups = sorted(n for n, c in seen.items() if c > 1)
+    if dups:
+        raise core.Violation("C13", "duplicate-name", {"names": dups[:5]}, {"temp": bool(re.match(r"^\\.L|^\\$L", dups[0]))})
+    # every copy's references to temporary labels stay inside the copy
+    temp = re.compile(r"^(\\.L|\\$L|L\\$).*_(\\d+)$")
+    for c in sess.captures:
+        cap = c["cap"]
+        if cap is None:
+            continue
+        own = set()
+        for sec in cap["sections"].values():
+            own.update(l[0] for l in sec["labels"])
+        suffixes = {temp.match(n).group(2) for n in own if temp.match(n)}
+        for sec in cap["sections"].values():
+            for off, (size, ed) in sec["sx"].items():
+                for name in ([ed[1]] + ([ed[2]] if ed[0] == "diff" else [])):
+                    mo = temp.match(name) if isinstance(name, str) else None
+                    if mo and name not in own:
+                        # a temporary label of another invocation (or of an
+                        # earlier session, which is legitimate only if the
+                        # patch text named it explicitly - ours never does)
+                        raise core.Violation("C13", "captured-label", {"op": c["op"], "invocation": c["inv"], "reference": name, "own_labels": sorted(own)}, {"kind": "foreign-temp-label"})
+    # expressions naming an existing module symbol hold that very object
+    try:
+        _check_exprs(mt, sess)
+    except core.Violation as v:
+        if v.vclass in ("expr-symbol-identity", "duplicate-symbol"):
+            raise core.Violation("C13", "wrong-identity", v.witness, {"via": v.vclass})
+        raise core.Desync(f"expressions differ from the model ({v.vclass})")
